@@ -11,6 +11,16 @@ TB = ("Trusted: Lean 4.33 kernel; axioms ⊆ {propext, Classical.choice, Quot.so
       "(constants/tables regenerated from /repo) and the differential correspondence stream; ")
 
 NOTES = {
+    "C15": {
+        "text": "Kernel-checked: on an account whose data is the canonical encoding of any entry list (repeated types, any free tail) realloc_and_pack of an existing (type, repetition) with any packed "
+                "value within the 10 KiB growth limit yields exactly the canonical encoding with that one value replaced and the same free tail — in both code paths (grow: resize, reopen, realloc, pack; "
+                "shrink: pack, realloc, resize) — so the data length changes by exactly the size delta; a missing entry or growth beyond the limit is an error with the account untouched. Borsh: the "
+                "round-trip law dec(enc a ++ tail) = (a, tail) holds for the primitive codecs and is preserved by every type former for arbitrary component codecs (so for generic items too); hence the "
+                "derived packer reports |enc a|, writes enc a, and decodes it back from an oversized slot.",
+        "design_ref": "§5 C15",
+        "note": TB + "AccountInfo::resize and borsh are modelled (validated by the stream on real runtime-layout accounts and against borsh::to_vec); that the derive expands to the three borsh calls for generic items is checked by compiling derived generic types (harness + macro-lab), not by proof.",
+        "technique": "Lean 4 theorem (composition of the TLV refinement with the account-resize model; codec-combinator laws) + differential correspondence on runtime-layout accounts and derived packers",
+    },
     "C12": {
         "text": "Kernel-checked composition of the TLV refinement, the list-view refinement and the decoding theorems: on any canonical account state, init either fails leaving the bytes identical (list "
                 "already present, or fewer than 12 + 4 + 35 n free bytes) or appends an entry whose value decodes to exactly the given configs; update likewise replaces the entry (longer, shorter, equal) or "
